@@ -124,3 +124,32 @@ def _variant(tag, chains, with_ter, kind="ATOM"):
 _variant("with_ter", ("A", "B"), True)
 _variant("blank_chain", ("", "A", "B"), False)
 _variant("hetatm", ("A", "B"), True, "HETATM")
+
+
+# ---------------------------------------------------------------- create_residue: which class a group of records becomes
+# a name the topology knows -> the class of that name (amino acids from aa, nucleotides from na; RNA one-letter names
+# through RNA_MAPPING), built from exactly the records handed in; anything else -> a generic Residue of the same
+# records (kept, reported later as unassigned - never dropped here)
+def _cr(tag, resname, klass_key, defnames):
+    defmap = DictOf(*[(n, Obj("pdb2pqr.definitions:DefinitionResidue", name=Const(n))) for n in defnames])
+    contract(
+        "pdb2pqr.biomolecule:Biomolecule.create_residue", ["C07", "C03"],
+        params={"self": Obj("pdb2pqr.biomolecule:Biomolecule", definition=Obj("pdb2pqr.definitions:Definition", map=defmap)),
+                "residue": Named("recs", Items(Obj("pdb2pqr.pdb:ATOM", name=Const("N")), Obj("pdb2pqr.pdb:ATOM", name=Const("CA")))),
+                "resname": Const(resname)},
+        requires=[],
+        ensures=[
+            f"len(calls()) >= 1 and calls()[0].key == '{klass_key}'",
+            "calls()[0].args['atoms'] is recs",
+            "result is calls()[0].ret",
+        ],
+        trace={"pdb2pqr.aa:GLY": Obj("pdb2pqr.aa:GLY", name=Const("GLY")), "pdb2pqr.aa:WAT": Obj("pdb2pqr.aa:WAT", name=Const("HOH")),
+               "pdb2pqr.na:RA": Obj("pdb2pqr.na:ADE", name=Const("RA")), "pdb2pqr.na:ADE": Obj("pdb2pqr.na:ADE", name=Const("RA")),
+               "pdb2pqr.residue:Residue": Obj("pdb2pqr.residue:Residue", name=Const(resname)),
+               "pdb2pqr.residue:Residue.rename_residue": None, "pdb2pqr.aa:Amino.rename_residue": None},
+        name=f"create_residue.{tag}", native=False,
+    )
+
+
+_cr("amino", "GLY", "pdb2pqr.aa:GLY", ["GLY", "WAT", "RA"])
+_cr("unknown", "XYZ", "pdb2pqr.residue:Residue", ["GLY", "WAT", "RA"])
